@@ -24,14 +24,59 @@ def FLOORS(tier):
     q = tier == "quick"
     f = {"temperature-range-calls": 600 if q else 20000, "temperature:no-variables": 40, "temperature:zero-prob": 80,
          "temperature:equal-probs": 40, "constant-model": 60, "raw-repeated-labels": 40, "real-coefficients": 150,
-         "temperature:stale-model": 20, "second-look-checks": 500 if q else 20000, "second-look:cancel-all": 40, "second-look:clear": 40}
+         "temperature:stale-model": 20, "second-look-checks": 500 if q else 20000, "second-look:cancel-all": 40, "second-look:clear": 40, "exact-arithmetic": 100,
+         "dict-with-zero-coefficients": 60, "temperature:dict-with-zero-coefficients": 20}
     for fn in FN:
         f["fn:" + fn] = 300 if q else 15000
     return f
 
 
+def exact_case(ctx, rng):
+    """coefficients that floats cannot hold (ints above 2**53, thirds, sevenths): bounds compared exactly with Fractions"""
+    import itertools
+    from fractions import Fraction as F
+    fn = rng.choice(list(FN))
+    kind, d2 = FN[fn]
+    labs = gen.labels(rng, rng.randint(1, 5))
+    coefs = [2 ** 53 + 1, -(2 ** 60 + 3), F(1, 3), F(-2, 7), 1, -1, F(5, 3), 2 ** 53, 3]
+    terms = gen.rand_terms(rng, labs, 2 if d2 else 3, coefs=coefs, lo=1, hi=6)
+    tn = rng.choice(["dict", "model"])
+    if rng.random() < 0.15:
+        terms = {(): rng.choice(coefs)}
+    if tn == "model":
+        T = getattr(L, {"bool": "QUBO" if d2 else "PUBO", "spin": "QUSO" if d2 else "PUSO"}[kind])
+        m = gen.model_of(T, terms)
+    else:
+        m = dict(terms)
+    p = ref.from_raw(kind, dict(m))
+    order = sorted(p.vars(), key=repr)
+    vals = (0, 1) if kind == "bool" else (1, -1)
+    allv = [p.value(dict(zip(order, a))) for a in itertools.product(vals, repeat=len(order))]
+    tmin, tmax = min(allv), max(allv)
+    w = {"function": fn, "type": tn, "terms": dict(m), "class": "exact-arithmetic"}
+    ok, res = ctx.call(fn, getattr(L.utils, fn), m, _w=w)
+    if not ok:
+        return
+    ctx.cat("exact-arithmetic")
+    lo, hi = res
+    if frac(lo) > tmin:
+        ctx.violation(fn + ":lower-bound-above-minimum:exact", "lo=%r > exact min %s" % (lo, tmin), w)
+        return
+    if frac(hi) < tmax:
+        ctx.violation(fn + ":upper-bound-below-maximum:exact", "hi=%r < exact max %s" % (hi, tmax), w)
+        return
+    if all(not k for k in m) and not (frac(lo) == frac(hi) == frac(m.get((), 0))):
+        ctx.violation(fn + ":constant-model-not-tight:exact", "constant %r gives (%r, %r)" % (m.get((), 0), lo, hi), w)
+        return
+    if len(order) >= 2:
+        ctx.nontrivial(("exact", fn, tn, sorted(map(repr, m.items()))))
+
+
 def case(ctx, rng, idx):
-    if rng.random() < 0.3:
+    r0 = rng.random()
+    if r0 < 0.06:
+        return exact_case(ctx, rng)
+    if r0 < 0.34:
         return temperature(ctx, rng)
     fn = rng.choice(list(FN))
     kind, d2 = FN[fn]
@@ -53,6 +98,10 @@ def case(ctx, rng, idx):
         if raw and any(len(set(k)) < len(k) for k in terms):
             ctx.cat("raw-repeated-labels")
     m = dict(terms) if tn == "dict" else gen.model_of(getattr(L, tn), terms)
+    if tn == "dict" and rng.random() < 0.15:
+        for x in labs[:2]:
+            m.setdefault((x,), 0)             # a plain dict may carry explicit zero coefficients
+        ctx.cat("dict-with-zero-coefficients")
     p = ref.from_raw(kind, dict(m))
     w = {"function": fn, "type": tn, "terms": dict(m)}
     snap = dict(m)
@@ -104,6 +153,12 @@ def temperature(ctx, rng):
     else:
         terms = gen.rand_terms(rng, labs, maxd, lo=1, hi=6)
     m = dict(terms) if tn == "dict" else gen.model_of(getattr(L, tn), terms)
+    if tn == "dict" and rng.random() < 0.2:
+        if rng.random() < 0.5:
+            m = {k: (0 if k else v) for k, v in m.items()}        # every non-constant coefficient is an explicit zero
+        else:
+            m.setdefault((labs[0],), 0)
+        ctx.cat("temperature:dict-with-zero-coefficients")
     if tn != "dict" and len(m) and rng.random() < 0.08:
         for k in list(m):
             if k:
